@@ -184,6 +184,9 @@ func (r *runner) note(o *Outcome) {
 			r.res.Probes["earlier-call-cut-short-by-a-failing-source"]++
 		}
 	}
+	if c.Stdio != "" {
+		r.res.Probes["standard-output-unwritable"]++
+	}
 	if len(c.Companion) > 0 {
 		r.res.Probes["another-detection-running-at-the-same-time"]++
 	}
@@ -195,7 +198,7 @@ func (r *runner) note(o *Outcome) {
 	}
 	if c.Chunk.Delay > 0 || c.Runners.SlowEvery > 0 {
 		r.res.Faults["slow-read-or-slow-test"]++
-		r.res.Extra["simulated_hours_passed_while_tasks_slept"] += o.Sim.FakeSleeps
+		r.res.Extra["simulated_hours_passed_while_tasks_slept"] += int(o.Sim.FakeSlept / time.Hour)
 	}
 	if c.Chunk.Empty > 0 {
 		r.res.Faults["empty-read"] += o.Src.Reads / (2 * c.Chunk.Empty)
@@ -436,7 +439,7 @@ func (r *runner) minimise(c RunConfig, picks []int, clause string) (RunConfig, b
 		return ok
 	}
 	cur := c
-	cur.Policy = simctl.Policy{Kind: "recorded", Pool: cur.Policy.Pool}
+	cur.Policy = cur.Policy.Recorded()
 	cur.Picks = append([]int(nil), picks...)
 	if !fails(&cur) {
 		// the recorded schedule must reproduce the failure; if not, keep the original
@@ -557,7 +560,7 @@ func (r *runner) report(c *RunConfig, idx int, viol Violation, o *Outcome) {
 	if !still {
 		// fall back to the original configuration with its recorded picks
 		final = *c
-		final.Policy = simctl.Policy{Kind: "recorded", Pool: final.Policy.Pool}
+		final.Policy = final.Policy.Recorded()
 		final.Picks = append([]int(nil), o.Sim.Picks...)
 		vs, fo = r.evaluate(&final)
 		fv, still = hasClause(vs, viol.Clause)
